@@ -7,12 +7,14 @@ from harness.props._common import run_eval, replay_eval
 from harness import monitors
 
 PROPS_FILE = "P_C08"
+PROPS_FILES = ["P_C08", "P_C08asm"]
 COQ_TARGETS = ["CaseLib", "BaaModel"]
 RULE = ("tie (c): every call of baa._search_best made while planning (all strategies, use_low_rank, several budgets, structured and "
         "random states, n = 2..5/6) is logged as (total_saved_cnots, largest block, total_fidelity_loss as the exact rational of the "
         "float) and replayed inside Coq by BaaModel.search_best, which must select the same element; the tree of every run is walked "
         "and the conclusion of C08_build_inv (loss <= budget, saved > 0 on every non-root node) and the loss combination "
-        "1-(1-a)(1-b) are checked; direct evaluation (harness/props/c08_eval.py). distinct = distinct (state, options); non-trivial = n >= 3")
+        "1-(1-a)(1-b) are checked; the definition of every built gate is checked to be one low-rank block per plan factor on the plan's disjoint, "
+        "mirrored qubit groups (hypotheses of C08_product_assembly); direct evaluation (harness/props/c08_eval.py). distinct = distinct (state, options); non-trivial = n >= 3")
 ASSUMPTIONS = ["the candidate oracle (_reduce_entanglement, _count_saved_cnots: SVD and CNOT estimates) is arbitrary in the theorems; its numerics are evaluated",
                "the early exit to the canonical product plan and the _OptParams clamping are evaluated"]
 TRUSTED = ["harness/monitors.py patching of baa._search_best and baa._build_approximation_tree"]
@@ -110,8 +112,42 @@ def run_plans(ctx):
     run_bool_cases(ctx, "c08_best", HEADER, lines, cases, on_fail, shard=150)
 
 
+def assembly_tie(ctx):
+    """hypotheses of C08_product_assembly on the definition of BaaLowRankInitialize: one low-rank block per plan factor, block j placed
+    on the plan's qubit group j (labels mirrored, order reversed: compose(gate, qubits[::-1]) then reverse_bits), groups pairwise
+    disjoint and covering the register, every factor a unit vector of the group's dimension"""
+    from qclib.state_preparation import BaaLowRankInitialize
+    nmax = 6 if ctx.quick else 8
+    for n in range(2, nmax + 1):
+        for fam, v in states(ctx.rng, n):
+            for strategy, l in (("greedy", 0.0), ("brute_force" if n <= 6 else "greedy", 0.1), ("canonical", 0.4), ("split", 1.0)):
+                for low in (False, True):
+                    case = {"n": n, "family": fam, "strategy": strategy, "use_low_rank": low, "max_fidelity_loss": l}
+                    try:
+                        g = BaaLowRankInitialize(v, opt_params={"max_fidelity_loss": l, "strategy": strategy, "use_low_rank": low})
+                        circ = g.definition
+                        node = g.node
+                    except Exception as ex:
+                        ctx.note(f"BaaLowRankInitialize raised {type(ex).__name__} on {fam} n={n} {strategy} low={low} l={l}")
+                        continue
+                    ctx.monitor("assembly_structure")
+                    ctx.count(f"assembly:{strategy}", key=("asm", n, fam, strategy, low, l, v.tobytes()), nontrivial=n >= 3, sample=None)
+                    groups = [tuple(int(q) for q in qs) for qs in node.qubits]
+                    insts = [(i.operation.name, [circ.find_bit(q).index for q in i.qubits]) for i in circ.data]
+                    expect = [[n - 1 - q for q in qs[::-1]] for qs in groups]
+                    flat = sorted(q for qs in groups for q in qs)
+                    ok = (len(insts) == len(groups) and all(nm == "low_rank" for nm, _ in insts)
+                          and [qs for _, qs in insts] == expect and flat == list(range(n))
+                          and all(len(vec) == 2 ** len(qs) and abs(np.linalg.norm(vec) - 1) < 1e-9 for vec, qs in zip(node.vectors, groups)))
+                    if not ok:
+                        ctx.mismatch("C08 tie: the definition of BaaLowRankInitialize is not one low-rank block per plan factor on the plan's "
+                                     "disjoint qubit groups (hypotheses of C08_product_assembly)",
+                                     dict(case, plan_qubits=[list(q) for q in groups], instructions=insts))
+
+
 def run(ctx):
     run_plans(ctx)
+    assembly_tie(ctx)
     run_eval(ctx, "C08")
 
 
@@ -124,7 +160,7 @@ def replay(ctx, case):
 
 
 MANIFEST = dict(
-    text='Proof (PARTIAL): for every candidate oracle the tree built under the two guards of _build_approximation_tree contains only nodes with accounted loss <= budget and saved CNOTs > 0 (C08_build_inv), and _search_best returns one of the leaves it is given (C08_search_best_in/preserves). Tie: every _search_best call of a run is replayed inside Coq on the logged leaves (losses as exact rationals of the floats) and must select the same leaf; every tree is walked for the invariants. Exactness at l=0, plan faithfulness, true loss for n<=3 and CNOT comparison are evaluated.',
+    text='Proof (PARTIAL): for every candidate oracle the tree built under the two guards of _build_approximation_tree contains only nodes with accounted loss <= budget and saved CNOTs > 0 (C08_build_inv), and _search_best returns one of the leaves it is given (C08_search_best_in/preserves). Tie: every _search_best call of a run is replayed inside Coq on the logged leaves (losses as exact rationals of the floats) and must select the same leaf; every tree is walked for the invariants. Assembly: local operators on pairwise disjoint qubit groups, each preparing its factor, prepare the product of the factors (C08_product_assembly, C08_product_from_zeros; local = frame property, held by circuits that stay inside the group, C08_local_circuits); the block structure of every built definition is checked against the plan. Exactness at l=0, plan faithfulness, true loss for n<=3 and CNOT comparison are evaluated.',
     note='Modelled, not verified: SVD-based candidate oracle and CNOT estimates (arbitrary in the theorems); plan assembly evaluated only.',
     technique='Coq proof (invariant by induction over the search tree, any oracle) + bit-exact replay of the selection rule (vm_compute) + evaluation',
     design_ref='DESIGN.md section 4, C08')
